@@ -306,7 +306,9 @@ def strategy(tier):
         lambda fam: st.lists(
             st.sampled_from(SEQ_FAMILIES[fam]).flatmap(lambda k: st.tuples(st.just(k), _fields(k)).map(list)),
             min_size=2, max_size=5).map(lambda ms: {"k": "msgseq", "family": fam, "msgs": ms}))
-    return st.one_of(msg, msg, msg, hello, framing, seqs)
+    e2e = st.builds(lambda ch: {"k": "e2e", "changes": ch},
+                    st.lists(st.tuples(st.integers(0, 1022), st.binary(min_size=2, max_size=2).map(bytes.hex)).map(list), min_size=1, max_size=4))
+    return st.one_of(msg, msg, msg, msg, msg, msg, hello, hello, framing, framing, seqs, seqs, e2e)
 
 
 # messages that one long-lived handler instance decodes one after the other in real use
@@ -439,6 +441,25 @@ def _msg(res, case):
         res.fail(f"C04|unframe|{'taggy' if _has_special(content) else 'plain'}",
                  f"{kind}: framed {wire!r} from {addr} un-frames to {got!r}, expected {want!r}")
         return
+    # (2b) the same datagram through the blocking stack's own dispatcher (real GeckoUdpSocket.dispatch_recevied_data with the
+    # real un-framer registered): the verb handler behind it must be offered exactly the content
+    seen = []
+
+    class _Rec(d.GeckoUdpProtocolHandler):
+        def can_handle(self, received_bytes, sender):
+            return not received_bytes.startswith(b"<PACKT>")
+
+        def handle(self, received_bytes, sender):
+            seen.append((received_bytes, tuple(sender)))
+
+    rsock = d.GeckoUdpSocket()
+    rsock.add_receive_handler(d.GeckoPacketProtocolHandler(socket=rsock))
+    rsock.add_receive_handler(_Rec())
+    rsock.dispatch_recevied_data(wire, addr)
+    if seen != [want]:
+        res.fail(f"C04|socket-dispatch|{'taggy' if _has_special(content) else 'plain'}",
+                 f"{kind}: {wire!r} through GeckoUdpSocket.dispatch_recevied_data reaches the verb handler as {seen!r}, expected {want!r}")
+        return
     # (3) claimed by exactly its verb
     ok = _check_claims(res, kind, family, content)
     # (4) decodes to the inputs on a fresh peer handler of every class of the family
@@ -554,9 +575,53 @@ def _files(res, case):
     res.labels.append(("files_replies_checked", n))
 
 
+def _e2e(res, case):
+    """a framed unsolicited partial update through a really connected async client: the acknowledgement it puts on the wire is
+    addressed back to the spa with the identifiers swapped (the un-framer's parms reach the reply builder intact)"""
+    from .. import clients, vworld
+
+    changes = [(int(p_), bytes.fromhex(h_)) for p_, h_ in case["changes"]]
+    if any(p_ + 2 > 1024 or len(d_) != 2 for p_, d_ in changes):
+        raise InvalidCase(case)
+    W = vworld.World()
+    sim = vworld.make_simulator()
+    peer = W.add_peer(sim)
+    out = {}
+
+    async def main(W):
+        spa, tm, ev = await clients.connect_async_spa(W, peer)
+        try:
+            w0 = len(W.wire)
+            W.inject(W.transports[-1], R.frame(sim.vp_identifier, clients.CLIENT_ID, R.partial_update(changes)), peer.addr)
+            await W.sleep(1.0)
+            out["acks"] = [w[4] for w in W.wire[w0:] if w[1] == "c2s" and b"STATQ" in w[4]]
+            out["dead"] = [t.get_name() for t in tm._tasks if t.done() and not t.cancelled() and t.exception() is not None]
+            out["block"] = spa.struct.status_block
+        finally:
+            await spa.disconnect()
+            await clients.shutdown(tm)
+
+    W.run(main)
+    if out.get("dead"):
+        res.fail("C04|e2e|consumer-died", f"after a framed STATP: tasks {out['dead']} ended with an exception")
+    if len(out["acks"]) != 1:
+        res.fail("C04|e2e|ack-count", f"{len(out['acks'])} acknowledgements on the wire for one partial update")
+    else:
+        got = R.unframe(out["acks"][0])
+        if got is None or (got[0], got[1]) != (clients.CLIENT_ID, sim.vp_identifier) or got[2][:5] != b"STATQ":
+            res.fail("C04|e2e|ack-framing", f"acknowledgement on the wire: {out['acks'][0]!r}")
+    for p_, d_ in changes:
+        pass
+    res.nontrivial = len(changes) >= 2
+    res.label("e2e-async")
+
+
 def run_case(case) -> Result:
     res = Result()
     k = case.get("k")
+    if k == "e2e":
+        _e2e(res, case)
+        return res
     if k == "msg":
         _msg(res, case)
     elif k in ("hello_rsp", "hello_client", "hello_bcast"):
